@@ -270,6 +270,9 @@ func jobs(quick bool) []job {
 				for _, lk := range lks {
 					out = append(out, job{k, os, gi, gr, lk})
 				}
+				if quick && k.name == "stateful" && (os.name == "plain" || os.name == "Elide") {
+					out = append(out, job{k, os, gi, gr, 5}) // a lookahead beyond every branch of these grammars
+				}
 			}
 		}
 	}
